@@ -4,6 +4,8 @@ import (
 	"bytes"
 	"encoding/csv"
 	"io"
+
+	"github.com/benhoyt/goawk/internal/ast"
 )
 
 // C08 — CSV/TSV input against the real encoding/csv.Reader (executed by the
@@ -241,4 +243,31 @@ func VerifC08RoundTrip() {
 	q.haveFields = false
 	q.ensureFields()
 	verifAssert(verifSameStrs(q.fields, fields), "CSV round trip: $0 rebuilt in CSV output mode does not re-parse to the same fields")
+}
+
+// the round trip holds in every output mode reached through OUTPUTMODE assignments during the run
+// (separator changes must take effect for quoting as well as for joining)
+func VerifC08ModeSwitch() {
+	modes := []string{"csv", "tsv", "csv separator=;", "tsv", "csv"}
+	p := &interp{outputFormat: "%.6g", convertFormat: "%.6g", outputFieldSep: " ", outputRecordSep: "\n"}
+	first := verifIntRange(0, 2)
+	second := verifIntRange(0, len(modes)-1)
+	verifAssert(p.setSpecial(ast.V_OUTPUTMODE, str(modes[first])) == nil, "OUTPUTMODE rejected")
+	var sink bytes.Buffer
+	verifAssert(p.printArgs(&sink, []value{str("w"), str("x,y\tz;")}) == nil, "print failed")
+	verifAssert(p.setSpecial(ast.V_OUTPUTMODE, str(modes[second])) == nil, "OUTPUTMODE rejected")
+	f1 := verifString(1)
+	f2 := []string{",", "\t", ";", "a;b", "a,b", "a\tb"}[verifIntRange(0, 5)]
+	verifAssume(f1[0] != '\r')
+	var out bytes.Buffer
+	verifAssert(p.printArgs(&out, []value{str(f1), str(f2)}) == nil, "print failed")
+	rows, _ := verifScanCSV(CSVInputConfig{Separator: p.csvOutputConfig.Separator}, out.Bytes(), out.Len())
+	verifAssert(len(rows) == 1 && verifSameStrs(rows[0].fields, []string{f1, f2}), "after OUTPUTMODE changed during the run, fields written by print are not read back as the same values")
+	p.setLine("k", false)
+	p.inputMode, p.csvInputConfig = CSVMode, CSVInputConfig{Separator: p.csvOutputConfig.Separator}
+	verifAssert(p.setField(1, f1) == nil && p.setField(2, f2) == nil, "field assignment failed")
+	q := &interp{inputMode: CSVMode, csvInputConfig: p.csvInputConfig}
+	q.line, q.reparseCSV = p.getField(0).s, true
+	q.ensureFields()
+	verifAssert(verifSameStrs(q.fields, []string{f1, f2}), "after OUTPUTMODE changed during the run, a rebuilt $0 does not re-parse to the same fields")
 }
